@@ -108,22 +108,6 @@ example : exDerived.contains "zz".toList = false
 
 /-! ## 8. unknown keys of a nested object decoded by `bind_best_dataclass` -/
 
-theorem bestStep_congr {keys keys' : List Str} {c : Cand}
-    (h : localNamesMatch keys c.localNames = localNamesMatch keys' c.localNames) (acc : Option (ClassId × Nat)) :
-    bestStep keys acc c = bestStep keys' acc c := by
-  simp [bestStep, h]
-
-theorem foldl_bestStep_congr {keys keys' : List Str} :
-    ∀ (cands : List Cand), (∀ c ∈ cands, localNamesMatch keys c.localNames = localNamesMatch keys' c.localNames) →
-      ∀ acc, cands.foldl (bestStep keys) acc = cands.foldl (bestStep keys') acc := by
-  intro cands
-  induction cands with
-  | nil => intro _ acc; rfl
-  | cons c cs ih =>
-    intro h acc
-    rw [List.foldl_cons, List.foldl_cons, bestStep_congr (h c (List.mem_cons_self ..))]
-    exact ih (fun c' h' => h c' (List.mem_cons_of_mem _ h')) _
-
 /-- **best_unknown_key_strict**: a field whose declared class has subclasses (or a union /
 compound / wildcard field) decodes a nested object through `bind_best_dataclass`; with
 `fail_on_unknown_properties` on, a key that no candidate class declares excludes every
@@ -198,12 +182,6 @@ example : exCands.all (fun c => c.localNames.contains ['x']) = true := by decide
 
 /-! ## 9. the strict conversion setting of `bind_best_dataclass` stays with the candidates -/
 
-/-- the candidates are tried with conversions strict and the two other flags as given -/
-theorem candidate_config_spec (cfg : ParserConfig) :
-    (candidateConfig cfg).failOnConverterWarnings = true
-    ∧ (candidateConfig cfg).failOnUnknownProperties = cfg.failOnUnknownProperties
-    ∧ (candidateConfig cfg).failOnUnknownAttributes = cfg.failOnUnknownAttributes := ⟨rfl, rfl, rfl⟩
-
 /-- **best_match_config_local**: whatever items (conversions, best-match bindings, over any
 number of documents) a decoder works through, its own configuration afterwards is the one
 the caller passed, and every item is treated exactly as if it were the first: the outcome
@@ -225,25 +203,6 @@ theorem convert_after_best_lenient {cfg : ParserConfig} (hc : cfg.failOnConverte
     (workAll cfg (pre ++ .convert true :: post)).1[pre.length]? = some (.ok .warned) := by
   rw [(best_match_config_local cfg _).2]
   simp [workStep, hc]
-
-/-- **best_lenient_fallback** (formerly known finding `C10-dict-best-strict-conversion`, repaired):
-with `fail_on_converter_warnings` off, when no candidate binds under the strict copy the
-candidates are ranked under the caller's own configuration; with the flag on the strict failure stands. -/
-theorem best_lenient_fallback (cfg : ParserConfig) (keys : List Str) (cands : List CandC)
-    {err : Err} (hs : bindBest cfg keys (cands.map (·.under (candidateConfig cfg))) = .error err) :
-    (workStep cfg (.best keys cands)).1 =
-      if cfg.failOnConverterWarnings then .error err
-      else (match bindBest cfg keys (cands.map (·.under cfg)) with
-        | .ok c => .ok (.chose c)
-        | .error e => .error e) := by
-  simp only [workStep, hs]
-  split <;> rfl
-
-/-- a strict success is final: the lenient attempts are not consulted -/
-theorem best_strict_first (cfg : ParserConfig) (keys : List Str) (cands : List CandC)
-    {c : ClassId} (hs : bindBest cfg keys (cands.map (·.under (candidateConfig cfg))) = .ok c) :
-    (workStep cfg (.best keys cands)).1 = .ok (.chose c) := by
-  simp only [workStep, hs]
 
 /-- **best_lenient_binds**: with `fail_on_converter_warnings` off a nested object is bound
 whenever some candidate class declares its (known) keys and binds it under the caller's own
